@@ -53,6 +53,8 @@ def gen_for(pid, rng, tier):
             spec["extra_run"] = True; spec["flavour"] = "extra"
     elif pid == "C02":
         spec = solvergen.gen_spec(rng, maxdim=maxdim, nsteps=nsteps, flavour="steps" if k < 0.5 else "ops")
+        if spec["solver"] == "DE2" and rng.random() < 0.35:
+            spec["mapper"] = "serial"
         if not spec.get("ranges") and rng.random() < 0.8:
             x0 = spec.get("x0") or [0.5 * (a + b) for a, b in zip(*spec["init_box"])]
             lo, hi, bk = solvergen.gen_box(rng, spec["dim"], x0)
